@@ -32,7 +32,7 @@ const streamDomain = 0xC08
 func init() {
 	fw.Register(&fw.Prop{
 		ID: "C08",
-		Rule: "case = one connection of a content class (http, tls, regexp+tee+throttle, six proxy classes one per selection policy, openvpn auth-mode, fall-through) with unique PRF content, " +
+		Rule: "case = one connection of a content class (http, tls, regexp+tee+throttle, six proxy classes one per selection policy, a two-peer upstream, a dial address with a per-connection placeholder, openvpn auth-mode, fall-through) with unique PRF content, " +
 			"run concurrently with 32-64 others through one App and one listener wrapper at several GOMAXPROCS settings; oracle: every consumer (sink, tee branch, echo upstream round trip, " +
 			"Accept consumer) read exactly this connection's bytes (no foreign or poison byte), the connection took the route of its class, no crash; in the race children any race report " +
 			"attributed to repository code is a violation. non-trivial = the connection overlapped with at least one other; distinct = hash(class, overlap bucket, entry level, GOMAXPROCS)",
@@ -101,6 +101,10 @@ func (e *env) routes() string {
 			"handle": []any{map[string]any{"handler": "proxy", "upstreams": upstreams,
 				"load_balancing": map[string]any{"selection": pol}}}})
 	}
+	// one upstream with two peers: the relay writes to the client from one goroutine per peer
+	rs = append(rs, map[string]any{
+		"match":  []any{map[string]any{"regexp": map[string]any{"pattern": "^PXM", "count": 3}}},
+		"handle": []any{map[string]any{"handler": "proxy", "upstreams": []any{map[string]any{"dial": []string{e.ups[0].Addr, e.ups[1].Addr}}}}}})
 	if len(e.dyn) > 0 {
 		// the upstream's dial address contains a placeholder whose value differs from connection to connection
 		rs = append(rs, map[string]any{
@@ -165,7 +169,7 @@ func (e *env) startDyn() {
 	}
 }
 
-var classNames = []string{"http", "tls", "rgx", "px0", "px1", "px2", "px3", "px4", "px5", "ovpn", "ssh", "none", "pxd", "pxd"}
+var classNames = []string{"http", "tls", "rgx", "px0", "px1", "px2", "px3", "px4", "px5", "ovpn", "ssh", "none", "pxd", "pxd", "pxm"}
 
 func (e *env) makeCase(seed int64, shard, n int, level string) *connCase {
 	r := fw.Rand(seed, "c08case", shard, n, level)
@@ -191,6 +195,8 @@ func (e *env) makeCase(seed int64, shard, n int, level string) *connCase {
 		cc.wire, cc.sink = append(append([]byte(nil), e.hellos[r.Intn(len(e.hellos))]...), body...), "tls"
 	case class == "rgx":
 		cc.wire, cc.sink = append([]byte(fmt.Sprintf("RGX%d", r.Intn(10))), body...), "rgx"
+	case class == "pxm":
+		cc.wire, cc.proxy = append([]byte("PXM"), body...), true
 	case class == "pxd":
 		cc.dynK = r.Intn(len(dynHosts))
 		cc.wire, cc.proxy = append([]byte(fmt.Sprintf("PXD%d", cc.dynK)), body...), true
@@ -428,7 +434,12 @@ func runLevel(c *fw.Ctx, e *env, level string, total, workers int) {
 				}
 			}
 		}
-		if cc.class == "pxd" {
+		if cc.class == "pxm" {
+			// both peers echo the stream: the client reads an order-preserving interleaving of two copies of it
+			if !selfShuffle(res.echo, cc.wire) {
+				report("proxy-echo "+classify(res.echo, cc.wire), fmt.Sprintf("bytes relayed to two echo peers and back (%d bytes) are not an interleaving of two copies of this connection's stream (%d bytes)", len(res.echo), len(cc.wire)))
+			}
+		} else if cc.class == "pxd" {
 			// the upstream is named by this connection's own placeholder value: its tag comes first, then the echo
 			// of what follows the four bytes the placeholder handler consumed
 			want := append([]byte{byte('A' + cc.dynK)}, cc.wire[4:]...)
@@ -479,6 +490,9 @@ func classGroup(class string) string {
 	if class == "pxd" {
 		return "proxy/placeholder-address"
 	}
+	if class == "pxm" {
+		return "proxy/two-peers"
+	}
 	if strings.HasPrefix(class, "px") {
 		i := int(class[2] - '0')
 		return "proxy/" + policies[i]
@@ -487,6 +501,32 @@ func classGroup(class string) string {
 }
 
 var _ net.Conn
+
+// selfShuffle reports whether got is an order-preserving interleaving of two copies of w. The frontier holds the
+// positions (i, k-i), i >= k-i, that the first k bytes of got can correspond to; PRF content keeps it tiny.
+func selfShuffle(got, w []byte) bool {
+	if len(got) != 2*len(w) {
+		return false
+	}
+	frontier := map[int]bool{0: true}
+	for k := 0; k < len(got); k++ {
+		next := map[int]bool{}
+		for i := range frontier {
+			j := k - i
+			if i < len(w) && w[i] == got[k] {
+				next[i+1] = true
+			}
+			if j < len(w) && j < i && w[j] == got[k] {
+				next[i] = true
+			}
+		}
+		if len(next) == 0 {
+			return false
+		}
+		frontier = next
+	}
+	return true
+}
 
 func jsonUnmarshal(s string, v any) error { return json.Unmarshal([]byte(s), v) }
 
